@@ -806,6 +806,9 @@ func gridnFunc(gridnFn func(float64, string)) builtinFunc {
 	return func(_ *scope, args []value) (value, error) {
 		unit := args[0].(*numVal)
 		color := args[1].(*stringVal)
+		if !(unit.V > 0) { // also rejects NaN; a platform would draw lines forever
+			return nil, fmt.Errorf(`%w: "gridn" expects a spacing greater than 0, found %v`, ErrBadArguments, unit.V)
+		}
 		gridnFn(unit.V, color.V)
 		return nil, nil
 	}
